@@ -13,9 +13,21 @@
 
   Since a47e117 the file-IR hook sorts the members of each set on the pair
   `(s["name"], json.dumps(s, sort_keys=True))`: the former tie counterexample is now the positive
-  `C18_ties_resolved`, and `C18_ir_canonical` needs no hypothesis on names — only that the sort
-  key separates the members (`SortKeyInj`: json's printer is injective on them; decidable,
-  evaluated by the driver on every object; the printer itself is not proved injective here).
+  `C18_ties_resolved`, and `C18_ir_canonical` needs no hypothesis on names and NO assumption on json:
+  the model's printer is PROVED injective on every JSON value (`C18_json_printer_injective`,
+  prefix-free form `C18_json_printer_prefix_free`; lemmas in `Lemmas/C18Json.lean`), `sort_keys=True`
+  is proved to forget exactly the order of a `Call`'s keyword arguments (`symKey_separates`), and
+  Python's `==` ignores that order too (`kwargs` is a `frozendict`; `Symbol.pyEq`), so the sort key
+  separates the members of every Python set (`sortKeyInj_of_isSet`). The remaining hypothesis is the
+  data-type invariant "the list stands for a set" (`IsSet`: no two members `==`);
+  `C18_cex_kwargs_order` shows it cannot be dropped for plain lists. The abstract condition
+  `SortKeyInj` survives only in the `…_of_sortKeyInj` general forms (and as a redundant evaluation in
+  the driver). Scope of the printer theorem: model strings are lists of Unicode scalar values (Lean
+  `Char`); a Python `str` holding two LONE surrogates is outside it (real `json.dumps` prints
+  `chr(0xd83d)+chr(0xde00)` and `chr(0x1f600)` alike, with `ensure_ascii`) — identifiers cannot
+  contain them; only a string literal with lone-surrogate escapes used as a dynamic attribute name
+  (`getattr(a, "\\ud83d\\ude00")`) could bring one in, and the final document is printed by the same
+  `json.dumps`, which prints the two alike as well.
 
   Full statement `C18_full` is NOT a theorem (`C18_full_false`):
     * `C18_cex_symtab_order`  the context hook emits `symbol_table` in insertion order (the
@@ -23,9 +35,11 @@
                               b3940ea; the hook's order sensitivity remains a fact);
     * `C18_cex_dup_id`        two keys of one FileIr with the same id collapse (known finding,
                               synthesised objects only).
+  Every other conjunct of `C18_full` is a theorem (`C18_full_but_symtab`).
   Proved for all objects, no size bound: results documents are canonical; IR documents are
-  canonical when the dict keys have distinct names and `SortKeyInj` holds of each set; symbols,
-  function IRs, contexts, whole file IRs, results and cacheable results round-trip; re-serialisation is
+  canonical when the dict keys have distinct names and the member lists are sets; the sort-key
+  document is one line of printable ASCII (`C18_dumps_ascii`); symbols, function IRs, contexts, whole
+  file IRs, results and cacheable results round-trip; re-serialisation is
   idempotent. (A further known finding, the location a set member carries after result generation,
   arises before serialisation — stage S6 — and has no counterpart in this model, whose input is
   the object to serialise.)
@@ -33,9 +47,10 @@
 import RattrModel.Serialise
 import RattrModel.Generated.C18
 import RattrProofs.Lemmas.C18
+import RattrProofs.Lemmas.C18Json
 
 namespace Rattr.C18
-open Rattr Rattr.Ser Rattr.C18L
+open Rattr Rattr.Ser Rattr.C18L Rattr.C18J
 
 /-! ### Tie A: the constants the model hard-codes are what the source says now -/
 
@@ -113,9 +128,9 @@ def FileIrSetEq (f₁ f₂ : FileIr) : Prop :=
 def symKey (s : Symbol) : Str × Str := irKey (unSymbol s)
 
 /-- The sort key separates distinct members: two members with the same
-`(name, json.dumps(·, sort_keys=True))` have the same document. This is the injectivity of json's
-printer on the members (json is trusted, DESIGN §6); it is a decidable condition on the concrete
-set, evaluated by the driver on every object of every run. -/
+`(name, json.dumps(·, sort_keys=True))` have the same document. PROVED of every list that stands
+for a Python set (`sortKeyInj_of_isSet`) and of every list without reordered keyword arguments
+(`sortKeyInj_of_kwOrderFixed`); decidable, and still evaluated by the driver as a cross-check. -/
 def SortKeyInj (l : List Symbol) : Prop :=
   ∀ a b, a ∈ l → b ∈ l → symKey a = symKey b → unSymbol a = unSymbol b
 
@@ -126,7 +141,8 @@ def FnIrSortKeyInj (ir : FunctionIr) : Prop :=
   SortKeyInj ir.gets ∧ SortKeyInj ir.sets ∧ SortKeyInj ir.dels ∧ SortKeyInj ir.calls
 
 /-- Keys of the `_file_ir` dict have pairwise different names (they come from a context lookup by
-id), and the sort key separates the members of every set. -/
+id), and the sort key separates the members of every set (the second part follows from
+`FileIrSets`: `fileIrSortKeyInj_of_sets`). -/
 def FileIrSortKeyInj (f : FileIr) : Prop :=
   (∀ p q, p ∈ f.fileIr → q ∈ f.fileIr → p.1.nm = q.1.nm → p = q) ∧
   ∀ p, p ∈ f.fileIr → FnIrSortKeyInj p.2
@@ -192,6 +208,138 @@ theorem sortKeyInjB_iff (l : List Symbol) : sortKeyInjB l = true ↔ SortKeyInj 
     · exact Or.inr (h a b ha hb hk)
     · exact Or.inl hk
 
+/-! ### The sort key separates the members of a set: proved, not assumed
+
+`json.dumps` is injective; `sort_keys=True` forgets only the order of a `Call`'s keyword arguments
+(every other object of a symbol document has a fixed key set); and Python's `==` ignores that order
+too (`frozendict`). So two members of a Python set never share a sort key. -/
+
+theorem Target.pyEq_comm (a b : Target) : a.pyEq b = b.pyEq a := by
+  cases a <;> cases b <;> simp only [Target.pyEq] <;>
+    (apply Bool.eq_iff_iff.mpr; simp only [Bool.and_eq_true, beq_iff_eq]; constructor <;> (intro h; simp_all))
+
+theorem callArgsPyEq_comm (a b : CallArgs Str) : callArgsPyEq a b = callArgsPyEq b a := by
+  unfold callArgsPyEq
+  apply Bool.eq_iff_iff.mpr
+  simp only [Bool.and_eq_true, beq_iff_eq, List.isPerm_iff]
+  constructor <;> (intro h; exact ⟨h.1.symm, h.2.symm⟩)
+
+theorem Symbol.pyEq_comm (a b : Symbol) : a.pyEq b = b.pyEq a := by
+  cases a <;> cases b <;> simp only [Symbol.pyEq]
+  · exact Target.pyEq_comm _ _
+  · rename_i n a t l n' a' t' l'
+    have ht : optPyEq t t' = optPyEq t' t := by
+      cases t <;> cases t' <;> simp only [optPyEq]
+      exact Target.pyEq_comm _ _
+    rw [ht, callArgsPyEq_comm a a']
+    apply Bool.eq_iff_iff.mpr
+    simp only [Bool.and_eq_true, beq_iff_eq]
+    constructor <;> (intro h; simp_all)
+
+/-- A list that stands for a Python set: no two members are `==`. -/
+def IsSet (l : List Symbol) : Prop := l.Pairwise (fun a b => Symbol.pyEq a b = false)
+
+def FnIrIsSet (ir : FunctionIr) : Prop := IsSet ir.gets ∧ IsSet ir.sets ∧ IsSet ir.dels ∧ IsSet ir.calls
+
+/-- Keys of the `_file_ir` dict have distinct names (the analyser's invariant: keys come from a
+context lookup by id). -/
+def KeysDistinct (f : FileIr) : Prop :=
+  ∀ p q, p ∈ f.fileIr → q ∈ f.fileIr → p.1.nm = q.1.nm → p = q
+
+/-- The driver's Boolean check is the hypothesis of the theorems. -/
+theorem isSetB_iff : ∀ l : List Symbol, isSetB l = true ↔ IsSet l
+  | [] => by simp [isSetB, IsSet]
+  | a :: r => by
+    have ih := isSetB_iff r
+    unfold IsSet at ih ⊢
+    simp only [isSetB, Bool.and_eq_true, List.all_eq_true, Bool.not_eq_true', List.pairwise_cons, ih]
+
+/-- Every member list of every function IR of the file is a set. -/
+def FileIrSets (f : FileIr) : Prop := ∀ p, p ∈ f.fileIr → FnIrIsSet p.2
+
+/-- The model's `json.dumps` (default separators, `ensure_ascii`, keys in stored order) is injective
+on EVERY JSON value: strings are uniquely decodable (quote, backslash, short escapes, `\uXXXX`,
+surrogate pairs), numerals are delimited, the first character fixes the constructor. -/
+theorem C18_json_printer_injective (a b : JVal) (h : JVal.renderSp a = JVal.renderSp b) : a = b :=
+  renderSp_injective h
+
+/-- The printer is prefix-free: a printed value followed by anything that does not start with a
+digit can be read back in one way only. -/
+theorem C18_json_printer_prefix_free (a b : JVal) (r₁ r₂ : Str) (h₁ : NDH r₁) (h₂ : NDH r₂)
+    (h : JVal.renderSp a ++ r₁ = JVal.renderSp b ++ r₂) : a = b ∧ r₁ = r₂ :=
+  renderSp_inj a b r₁ r₂ h₁ h₂ h
+
+/-- `json.dumps(·, sort_keys=True)` is injective up to the key order it erases. -/
+theorem C18_dumps_sorted_injective (a b : JVal) (h : dumpSorted a = dumpSorted b) :
+    canon a = canon b :=
+  renderSp_injective h
+
+/-- The printed document is printable ASCII: one line, no raw newline or control character, nothing
+outside `' '..'~'` (`ensure_ascii`). -/
+theorem C18_dumps_ascii (j : JVal) : ∀ c, c ∈ dumpSorted j → 32 ≤ c.toNat ∧ c.toNat ≤ 126 :=
+  renderSp_ascii (canon j)
+
+theorem C18_dumps_one_line (j : JVal) : '\n' ∉ dumpSorted j := by
+  intro h
+  have := (C18_dumps_ascii j _ h).1
+  revert this
+  decide
+
+/-- Two symbols with one sort key agree on every field (locations included), except possibly on
+the ORDER of a `Call`'s keyword arguments. For ALL symbols. -/
+theorem symKey_separates (a b : Symbol) (h : symKey a = symKey b) : SymEqModKw a b :=
+  dumpSorted_unSymbol_inj (congrArg Prod.snd h)
+
+/-- … hence they are `==` in Python. -/
+theorem pyEq_of_symKey_eq (a b : Symbol) (h : symKey a = symKey b) : a.pyEq b = true :=
+  pyEq_of_symEqModKw (symKey_separates a b h)
+
+/-- `SortKeyInj` holds of EVERY Python set of symbols. -/
+theorem sortKeyInj_of_isSet {l : List Symbol} (h : IsSet l) : SortKeyInj l := by
+  intro a b ha hb hk
+  by_cases hab : a = b
+  · rw [hab]
+  · have hne := pairwise_mem (R := fun a b => Symbol.pyEq a b = false)
+      (fun a b h => by rw [Symbol.pyEq_comm]; exact h) h a b ha hb hab
+    rw [pyEq_of_symKey_eq a b hk] at hne
+    cases hne
+
+/-- The weakest condition on a plain list: no two members carry the same keyword arguments in two
+different orders. -/
+def KwOrderFixed (l : List Symbol) : Prop :=
+  ∀ a b, a ∈ l → b ∈ l → (symKwargs a).Perm (symKwargs b) → symKwargs a = symKwargs b
+
+theorem sortKeyInj_of_kwOrderFixed {l : List Symbol} (h : KwOrderFixed l) : SortKeyInj l := by
+  intro a b ha hb hk
+  have hm := symKey_separates a b hk
+  rw [eq_of_symEqModKw hm (h a b ha hb (symEqModKw_perm hm))]
+
+/-- In particular `SortKeyInj` holds of EVERY list (set or not) whose calls have at most one
+keyword argument each. -/
+theorem sortKeyInj_of_kwargs_le_one {l : List Symbol}
+    (h : ∀ s, s ∈ l → (symKwargs s).length ≤ 1) : SortKeyInj l := by
+  apply sortKeyInj_of_kwOrderFixed
+  intro a b ha hb hp
+  have h1 := h a ha
+  have h2 := h b hb
+  match hx : symKwargs a, hy : symKwargs b with
+  | [], [] => rfl
+  | [], _ :: _ => rw [hx, hy] at hp; exact absurd hp.length_eq (by simp)
+  | _ :: _, [] => rw [hx, hy] at hp; exact absurd hp.length_eq (by simp)
+  | [x], [y] =>
+    rw [hx, hy] at hp
+    rw [List.singleton_perm_singleton.mp hp]
+  | _ :: _ :: _, _ => rw [hx] at h1; simp at h1
+  | _, _ :: _ :: _ => rw [hy] at h2; simp at h2
+
+theorem fnIrSortKeyInj_of_isSet {ir : FunctionIr} (h : FnIrIsSet ir) : FnIrSortKeyInj ir :=
+  ⟨sortKeyInj_of_isSet h.1, sortKeyInj_of_isSet h.2.1, sortKeyInj_of_isSet h.2.2.1,
+    sortKeyInj_of_isSet h.2.2.2⟩
+
+theorem fileIrSortKeyInj_of_sets {f : FileIr} (hk : KeysDistinct f) (hs : FileIrSets f) :
+    FileIrSortKeyInj f :=
+  ⟨hk, fun p hp => fnIrSortKeyInj_of_isSet (hs p hp)⟩
+
 theorem unSymbolSet_perm {a b : List Symbol} (h : a.Perm b) (hd : SortKeyInj a) :
     unSymbolSet a = unSymbolSet b := by
   unfold unSymbolSet
@@ -208,11 +356,9 @@ theorem unFnIr_setEq {a b : FunctionIr} (h : FnIrSetEq a b) (hd : FnIrSortKeyInj
   rw [unSymbolSet_perm h.1 hd.1, unSymbolSet_perm h.2.1 hd.2.1, unSymbolSet_perm h.2.2.1 hd.2.2.1,
     unSymbolSet_perm h.2.2.2 hd.2.2.2]
 
-/-- C18 (canonical, IR): the file-IR document does not depend on any iteration order — of the
-`_file_ir` dict or of any of the sets, *with or without members sharing a name* — as long as the
-dict keys have distinct names and the sort key `(name, json.dumps(member))` separates the members
-of each set (`FileIrSortKeyInj`: json's printer is injective on them). -/
-theorem C18_ir_canonical (f₁ f₂ : FileIr) (hd : FileIrSortKeyInj f₁)
+/-- The general form, under the abstract condition that the sort key separates the members of each
+list (`FileIrSortKeyInj`); `C18_ir_canonical` below discharges that condition for sets. -/
+theorem C18_ir_canonical_of_sortKeyInj (f₁ f₂ : FileIr) (hd : FileIrSortKeyInj f₁)
     (h : FileIrSetEq f₁ f₂) : unFileIr f₁ = unFileIr f₂ := by
   obtain ⟨hc, es, hp, hf⟩ := h
   unfold unFileIr sortedEntries
@@ -234,18 +380,54 @@ theorem C18_ir_canonical (f₁ f₂ : FileIr) (hd : FileIrSortKeyInj f₁)
     (fun a c hac => by rw [hac.1.1, unFnIr_setEq hac.1.2 hac.2]) hs
   rw [m1, m2]
 
-/-- C18 (canonical, `-o ir` document): the same, for the whole `OutputIrs`. -/
-theorem C18_outputirs_canonical (o₁ o₂ : OutputIrs)
+/-- C18 (canonical, IR): the file-IR document does not depend on any iteration order — of the
+`_file_ir` dict or of any of the sets, *with or without members sharing a name* — for every file IR
+whose dict keys have distinct names and whose member lists are sets (no two members `==`). No
+assumption on json: the printer is proved injective (`C18_json_printer_injective`), so the sort key
+`(name, json.dumps(member, sort_keys=True))` separates the members (`sortKeyInj_of_isSet`). -/
+theorem C18_ir_canonical (f₁ f₂ : FileIr) (hk : KeysDistinct f₁) (hs : FileIrSets f₁)
+    (h : FileIrSetEq f₁ f₂) : unFileIr f₁ = unFileIr f₂ :=
+  C18_ir_canonical_of_sortKeyInj f₁ f₂ (fileIrSortKeyInj_of_sets hk hs) h
+
+/-- The set document alone: any two iteration orders of one set give one list. -/
+theorem C18_symbolSet_canonical {a b : List Symbol} (h : a.Perm b) (hs : IsSet a) :
+    unSymbolSet a = unSymbolSet b :=
+  unSymbolSet_perm h (sortKeyInj_of_isSet hs)
+
+/-- The function-IR document: any iteration orders of its four sets give one document. -/
+theorem C18_fnir_canonical {a b : FunctionIr} (h : FnIrSetEq a b) (hs : FnIrIsSet a) :
+    unFnIr a = unFnIr b :=
+  unFnIr_setEq h (fnIrSortKeyInj_of_isSet hs)
+
+/-- The `-o ir` document under the abstract condition `FileIrSortKeyInj`. -/
+theorem C18_outputirs_canonical_of_sortKeyInj (o₁ o₂ : OutputIrs)
     (hn : o₁.targetName = o₂.targetName)
     (ht : FileIrSetEq o₁.targetIr o₂.targetIr) (htd : FileIrSortKeyInj o₁.targetIr)
     (hi : Forall2 (fun p q => p.1 = q.1 ∧ FileIrSetEq p.2 q.2 ∧ FileIrSortKeyInj p.2)
       o₁.importIrs o₂.importIrs) :
     unOutputIrs o₁ = unOutputIrs o₂ := by
   unfold unOutputIrs
-  rw [hn, C18_ir_canonical _ _ htd ht]
+  rw [hn, C18_ir_canonical_of_sortKeyInj _ _ htd ht]
   have := map_eq_of_forall₂ (f := fun p : Str × FileIr => (p.1, unFileIr p.2))
     (g := fun p : Str × FileIr => (p.1, unFileIr p.2))
-    (fun a c hac => by rw [hac.1, C18_ir_canonical _ _ hac.2.2 hac.2.1]) hi
+    (fun a c hac => by rw [hac.1, C18_ir_canonical_of_sortKeyInj _ _ hac.2.2 hac.2.1]) hi
+  simp only at this ⊢
+  rw [this]
+
+/-- C18 (canonical, `-o ir` document): the same, for the whole `OutputIrs` (every file IR with
+distinct key names and member lists that are sets). -/
+theorem C18_outputirs_canonical (o₁ o₂ : OutputIrs)
+    (hn : o₁.targetName = o₂.targetName)
+    (ht : FileIrSetEq o₁.targetIr o₂.targetIr)
+    (htk : KeysDistinct o₁.targetIr) (hts : FileIrSets o₁.targetIr)
+    (hi : Forall2 (fun p q => p.1 = q.1 ∧ FileIrSetEq p.2 q.2 ∧ KeysDistinct p.2 ∧ FileIrSets p.2)
+      o₁.importIrs o₂.importIrs) :
+    unOutputIrs o₁ = unOutputIrs o₂ := by
+  unfold unOutputIrs
+  rw [hn, C18_ir_canonical _ _ htk hts ht]
+  have := map_eq_of_forall₂ (f := fun p : Str × FileIr => (p.1, unFileIr p.2))
+    (g := fun p : Str × FileIr => (p.1, unFileIr p.2))
+    (fun a c hac => by rw [hac.1, C18_ir_canonical _ _ hac.2.2.1 hac.2.2.2 hac.2.1]) hi
   simp only at this ⊢
   rw [this]
 
@@ -274,6 +456,33 @@ theorem C18_ties_sortKeyInj :
     · intro _; rfl
   · intro h
     exact absurd (h (callG "a") (callG "b") (by simp) (by simp) (by decide)) (by decide)
+
+private def callKw (kw : List (String × String)) : Symbol :=
+  .call (str "g") { args := [], kwargs := kw.map fun p => (str p.1, str p.2) } none loc0
+
+/-- Why the hypothesis is "the list is a set" and not nothing: `g(a=x, b=y)` and `g(b=y, a=x)` are
+`==` in Python (`kwargs` is a `frozendict`) and share a sort key (`sort_keys=True`), yet their
+documents differ. As two entries of ONE list — which no Python set can hold — they make the output
+depend on the order; `SortKeyInj` fails of that list and `IsSet` rules it out. -/
+theorem C18_cex_kwargs_order :
+    (callKw [("a", "x"), ("b", "y")]).pyEq (callKw [("b", "y"), ("a", "x")]) = true
+    ∧ symKey (callKw [("a", "x"), ("b", "y")]) = symKey (callKw [("b", "y"), ("a", "x")])
+    ∧ unSymbol (callKw [("a", "x"), ("b", "y")]) ≠ unSymbol (callKw [("b", "y"), ("a", "x")])
+    ∧ unSymbolSet [callKw [("a", "x"), ("b", "y")], callKw [("b", "y"), ("a", "x")]]
+        ≠ unSymbolSet [callKw [("b", "y"), ("a", "x")], callKw [("a", "x"), ("b", "y")]] := by
+  decide +kernel
+
+theorem C18_cex_kwargs_order_not_set :
+    ¬ SortKeyInj [callKw [("a", "x"), ("b", "y")], callKw [("b", "y"), ("a", "x")]]
+    ∧ ¬ IsSet [callKw [("a", "x"), ("b", "y")], callKw [("b", "y"), ("a", "x")]] := by
+  have h := C18_cex_kwargs_order
+  constructor
+  · intro hs
+    exact h.2.2.1 (hs _ _ (by simp) (by simp) h.2.1)
+  · intro hs
+    have := (List.pairwise_cons.mp hs).1 _ (List.mem_singleton.mpr rfl)
+    rw [h.1] at this
+    cases this
 
 private def symF : Symbol := .base (.func (str "f") loc0 (.mk ⟨[], [str "x"], none, [], none⟩) false)
 private def symG : Symbol := .base (.func (str "g") loc0 .any false)
@@ -422,24 +631,6 @@ theorem rt_symbol : ∀ s : Symbol, stSymbol (unSymbol s) = .ok s
   | .call n a t l => by
     simp only [unSymbol, stSymbol_shape_call, rt_optTarget, rt_callArgs, rt_location]; rfl
 
-theorem Target.pyEq_comm (a b : Target) : a.pyEq b = b.pyEq a := by
-  cases a <;> cases b <;> simp only [Target.pyEq] <;>
-    (apply Bool.eq_iff_iff.mpr; simp only [Bool.and_eq_true, beq_iff_eq]; constructor <;> (intro h; simp_all))
-
-theorem Symbol.pyEq_comm (a b : Symbol) : a.pyEq b = b.pyEq a := by
-  cases a <;> cases b <;> simp only [Symbol.pyEq]
-  · exact Target.pyEq_comm _ _
-  · rename_i n a t l n' a' t' l'
-    have ht : optPyEq t t' = optPyEq t' t := by
-      cases t <;> cases t' <;> simp only [optPyEq]
-      exact Target.pyEq_comm _ _
-    rw [ht]
-    apply Bool.eq_iff_iff.mpr
-    simp only [Bool.and_eq_true, beq_iff_eq]
-    constructor <;> (intro h; simp_all)
-
-def IsSet (l : List Symbol) : Prop := l.Pairwise (fun a b => Symbol.pyEq a b = false)
-
 theorem isSet_sortBy {l : List Symbol} (h : IsSet l) : IsSet (sortBy pairLe symKey l) :=
   ((perm_sortBy pairLe symKey l).pairwise_iff
     (fun {x y} (hxy : Symbol.pyEq x y = false) => by rw [Symbol.pyEq_comm]; exact hxy)).mpr h
@@ -455,14 +646,20 @@ theorem rt_symbolSet (l : List Symbol) (h : IsSet l) :
 `target` — structuring the unstructured symbol gives the symbol back (locations included). -/
 theorem C18_roundtrip_symbol (s : Symbol) : stSymbol (unSymbol s) = .ok s := rt_symbol s
 
+/-- The text determines the value: ANY JSON value that prints as the emitted symbol document
+structures back to the symbol — the round trip does not depend on which (correct) reader produced
+the value from the text. -/
+theorem C18_roundtrip_symbol_text (s : Symbol) (j : JVal)
+    (h : JVal.renderSp j = JVal.renderSp (unSymbol s)) : stSymbol j = .ok s := by
+  rw [C18_json_printer_injective j _ h]
+  exact rt_symbol s
+
 /-- The `any` sentinel and the empty interface are told apart. -/
 theorem C18_any_not_empty : unIface .any ≠ unIface (.mk ⟨[], [], none, [], none⟩) := by decide
 
 def normIr (ir : FunctionIr) : FunctionIr :=
   { gets := sortBy pairLe symKey ir.gets, sets := sortBy pairLe symKey ir.sets,
     dels := sortBy pairLe symKey ir.dels, calls := sortBy pairLe symKey ir.calls }
-
-def FnIrIsSet (ir : FunctionIr) : Prop := IsSet ir.gets ∧ IsSet ir.sets ∧ IsSet ir.dels ∧ IsSet ir.calls
 
 theorem stFnIr_shape (x1 x2 x3 x4 : JVal) :
     stFnIr (.obj [(kGets, x1), (kSets, x2), (kDels, x3), (kCalls, x4)])
@@ -557,12 +754,13 @@ theorem C18_reserialise_idem_symbol (s s' : Symbol) (hst : stSymbol (unSymbol s)
   rfl
 
 /-- Re-serialisation is idempotent for a function IR (members sharing a name included). -/
-theorem C18_reserialise_idem_fnir (ir ir' : FunctionIr) (h : FnIrIsSet ir) (hd : FnIrSortKeyInj ir)
+theorem C18_reserialise_idem_fnir (ir ir' : FunctionIr) (h : FnIrIsSet ir)
     (hst : stFnIr (unFnIr ir) = .ok ir') : unFnIr ir' = unFnIr ir := by
   rw [(C18_roundtrip_fnir ir h).1] at hst
   cases hst
   have hn := normIr_setEq ir
-  exact (unFnIr_setEq ⟨hn.1.symm, hn.2.1.symm, hn.2.2.1.symm, hn.2.2.2.symm⟩ hd).symm
+  exact (unFnIr_setEq ⟨hn.1.symm, hn.2.1.symm, hn.2.2.1.symm, hn.2.2.2.symm⟩
+    (fnIrSortKeyInj_of_isSet h)).symm
 
 /-! #### cacheable results -/
 
@@ -753,11 +951,13 @@ theorem normFileIr_setEq (f : FileIr) : FileIrSetEq f (normFileIr f) :=
 
 /-- Re-serialisation is idempotent for a well-formed FileIr: `serialise(deserialise(serialise(f))) = serialise(f)`. -/
 
-theorem C18_reserialise_idem_ir (f f' : FileIr) (hw : FileIrWf f) (hd : FileIrSortKeyInj f)
+theorem C18_reserialise_idem_ir (f f' : FileIr) (hw : FileIrWf f)
     (hst : stFileIr f.context.depth (unFileIr f) = .ok f') : unFileIr f' = unFileIr f := by
   rw [C18_roundtrip_ir f hw] at hst
   cases hst
-  exact (C18_ir_canonical f (normFileIr f) hd (normFileIr_setEq f)).symm
+  exact (C18_ir_canonical f (normFileIr f)
+    (inj_of_nodup_map (fun p : Symbol × FunctionIr => p.1.nm) hw.keysNodup) hw.sets
+    (normFileIr_setEq f)).symm
 
 private def wfIr : FileIr :=
   { context := .mk (some (.mk none [] (str "pkg/__init__.py"))) [(str "f", .base (.func (str "f") ⟨1, 0, some 2, some 9, str "t.py"⟩ .any false))] (str "t.py"),
@@ -781,18 +981,14 @@ example : FileIrWf wfIr ∧
 
 /-! ### The full statement (kept visible; false on the pinned tree) -/
 
-/-- Keys of the `_file_ir` dict have distinct names (the analyser's invariant: keys come from a
-context lookup by id). -/
-def KeysDistinct (f : FileIr) : Prop :=
-  ∀ p q, p ∈ f.fileIr → q ∈ f.fileIr → p.1.nm = q.1.nm → p = q
-
 /-- C18 in full: every document is canonical (results, file IR — for *all* sets, with or without
 equal names and with no assumption on json's printer — and the emitted symbol table, whose dict is
 a mapping), and everything round-trips. -/
 def C18_full : Prop :=
   (∀ r₁ r₂ : FileResults, (r₁.map Prod.fst).Nodup → ResultsSetEq r₁ r₂ →
       unFileResults r₁ = unFileResults r₂)
-  ∧ (∀ f₁ f₂ : FileIr, KeysDistinct f₁ → FileIrSetEq f₁ f₂ → unFileIr f₁ = unFileIr f₂)
+  ∧ (∀ f₁ f₂ : FileIr, KeysDistinct f₁ → FileIrSets f₁ → FileIrSetEq f₁ f₂ →
+      unFileIr f₁ = unFileIr f₂)
   ∧ (∀ (p : Option Context) (t₁ t₂ : List (Str × Symbol)) (f : Str), t₁.Perm t₂ →
       unContext (.mk p t₁ f) = unContext (.mk p t₂ f))
   ∧ (∀ s : Symbol, stSymbol (unSymbol s) = .ok s)
@@ -815,6 +1011,18 @@ theorem C18_full_false : ¬ C18_full := by
   exact C18_cex_symtab_order.2
     (h.2.2.1 none [(str "f", symF), (str "g", symG)] [(str "g", symG), (str "f", symF)] (str "t.py")
       (List.Perm.swap _ _ _))
+
+/-- Every conjunct of `C18_full` but the symbol-table one is a theorem. -/
+theorem C18_full_but_symtab :
+    (∀ r₁ r₂ : FileResults, (r₁.map Prod.fst).Nodup → ResultsSetEq r₁ r₂ →
+        unFileResults r₁ = unFileResults r₂)
+    ∧ (∀ f₁ f₂ : FileIr, KeysDistinct f₁ → FileIrSets f₁ → FileIrSetEq f₁ f₂ →
+        unFileIr f₁ = unFileIr f₂)
+    ∧ (∀ s : Symbol, stSymbol (unSymbol s) = .ok s)
+    ∧ (∀ r : FileResults, (∀ p, p ∈ r → FnNodup p.2) →
+        ∃ r', stFileResults (unFileResults r) = .ok r' ∧ ResultsSetEq r r') :=
+  ⟨C18_results_canonical, C18_ir_canonical, rt_symbol,
+    fun r h => ⟨_, (C18_roundtrip_results r h).1, (C18_roundtrip_results r h).2⟩⟩
 
 /-! ### Non-vacuity: the hypotheses are satisfiable by non-trivial inputs -/
 
@@ -842,6 +1050,47 @@ example : FileIrSortKeyInj (tieIr [callG "a", callG "b"]) := by
     simp only [tieIr, List.mem_singleton] at hp
     subst hp
     refine ⟨?_, ?_, ?_, C18_ties_sortKeyInj.1⟩ <;> (intro a b ha; cases ha)
+
+/-- The hypotheses of `C18_ir_canonical` hold of that FileIr too (its `calls` list is a set although
+two members share a name), and of a set whose two calls differ in their keyword arguments. -/
+example : KeysDistinct (tieIr [callG "a", callG "b"]) ∧ FileIrSets (tieIr [callG "a", callG "b"])
+    ∧ IsSet [callKw [("a", "x"), ("b", "y")], callKw [("b", "x"), ("a", "y")], callG "a"] := by
+  refine ⟨?_, ?_, ?_⟩
+  · intro p q hp hq _
+    simp only [tieIr, List.mem_singleton] at hp hq
+    rw [hp, hq]
+  · intro p hp
+    simp only [tieIr, List.mem_singleton] at hp
+    subst hp
+    refine ⟨by simp [IsSet], by simp [IsSet], by simp [IsSet], ?_⟩
+    unfold IsSet
+    simp only [List.pairwise_cons, List.mem_cons, List.not_mem_nil, or_false, forall_eq,
+      List.Pairwise.nil, and_true, false_implies, implies_true]
+    decide
+  · unfold IsSet
+    simp only [List.pairwise_cons, List.mem_cons, List.not_mem_nil, or_false, forall_eq_or_imp,
+      forall_eq, List.Pairwise.nil, and_true, false_implies, implies_true]
+    decide
+
+/-- `KwOrderFixed` / `sortKeyInj_of_kwargs_le_one` apply to a list that is NOT a set (a repeated
+member). -/
+example : (∀ s, s ∈ [callG "a", callG "a", callKw [("k", "v")]] → (symKwargs s).length ≤ 1)
+    ∧ ¬ IsSet [callG "a", callG "a", callKw [("k", "v")]] := by
+  constructor
+  · intro s hs
+    simp only [List.mem_cons, List.not_mem_nil, or_false] at hs
+    rcases hs with rfl | rfl | rfl <;> decide
+  · intro h
+    have := (List.pairwise_cons.mp h).1 (callG "a") (by simp)
+    revert this
+    decide
+
+/-- The printer theorems are about non-trivial values: a string with every kind of escape (quote,
+backslash, control, DEL, non-ASCII BMP, astral) nested in arrays and objects. -/
+example : JVal.renderSp (.obj [(str "k\"", .arr [.str (str "a\\\n\u0001\u007fé😀"), .num (-12), .null]),
+      (str "", .obj [])])
+    = str "{\"k\\\"\": [\"a\\\\\\n\\u0001\\u007f\\u00e9\\ud83d\\ude00\", -12, null], \"\": {}}" := by
+  decide +kernel
 
 /-- `FnIrIsSet`/`FnNodup` are satisfiable, and the round trip of a `Call` with a nested `Func`
 target evaluates as the theorem says. -/
